@@ -218,10 +218,10 @@ class ConditionSelector(ConditionItem):
         """
         Resolve all detection identifiers referenced by the selector.
         """
-        if self.pattern == "them":
-            r = re.compile(".*")
+        if self.pattern == "them":  # DOTALL: a detection name may contain any character
+            r = re.compile(".*", re.DOTALL)
         else:
-            r = re.compile(self.pattern.replace("*", ".*"))
+            r = re.compile(self.pattern.replace("*", ".*"), re.DOTALL)
 
         # When a filter is applied to a rule its detection identifiers are renamed to
         # start with a `_filt_<random>_` prefix, and its condition patterns receive the
